@@ -50,8 +50,9 @@ CLAIMS["C14"] = dict(
 CLAIMS["C15"] = dict(
     text=("Deductive proof of the 64-bit continuation step of RTP timestamps (bit-vector semantics: the PTS advances by the signed "
           "32-bit difference for every previous/next timestamp pair, any wrap position) and of the integer rescaling helper "
-          "(result within one unit of v*m/d for all non-negative v, m and positive d)."),
-    note=TRUST + "NTP encode/decode (float64 rounding), GlobalDecoder.Decode as a whole (maps, time.Now) and the sender-report mapping are not decided.",
+          "(result within one unit of v*m/d for all non-negative v, m and positive d); every sender report processed by the receiver replaces its "
+          "NTP/RTP mapping; the sender records the RTP timestamp and the absolute time of one and the same packet (the last with PTS equal to DTS)."),
+    note=TRUST + "NTP encode/decode (float64 rounding), GlobalDecoder.Decode as a whole (maps, time.Now) and the extrapolation in rtpsender's report() (floating point) are not decided.",
     design="DESIGN.md section 4, C15",
 )
 
@@ -59,8 +60,9 @@ CLAIMS["C16"] = dict(
     text=("Deductive proof of the bounded FIFO's monitor invariant and operation contracts: for every capacity and every state satisfying the "
           "invariant (occupied slots are exactly those at distance < count from the read index), New accepts exactly powers of two, Push refuses "
           "exactly when full and otherwise stores the item at the write position leaving every other slot and the read index unchanged, Pull "
-          "removes the item at the read position or reports closed, Close empties every slot; each operation re-establishes the invariant; every successful Push and every Close signals the condition variable exactly once (call counter), so a waiting consumer is woken by each of them."),
-    note=TRUST + "Sequential proof per critical section: the step from the monitor invariant to linearizability is the classical argument, not machine-checked; that a signalled consumer actually runs (scheduling), 'nothing runs after Close returned' at the asyncprocessor level and producer/closer races are not decided. After cond.Wait the monitor invariant is re-assumed.",
+          "removes the item at the read position or reports closed, Close empties every slot; each operation re-establishes the invariant; every successful Push and every Close signals the condition variable exactly once (call counter), so a waiting consumer is woken by each of them. "
+          "asyncprocessor: Close always cancels the context and closes the queue (whether or not the consumer was started), and the consumer reports a processing error at most once and then stops."),
+    note=TRUST + "Sequential proof per critical section: the step from the monitor invariant to linearizability is the classical argument, not machine-checked; that a signalled consumer actually runs (scheduling), whether the session routine receives the reported error (a select in a closure) and producer/closer races are not decided. After cond.Wait the monitor invariant is re-assumed.",
     design="DESIGN.md section 4, C16 and appendix C.2",
 )
 
@@ -69,8 +71,9 @@ CLAIMS["C10"] = dict(
           "(and for Digest the algorithm) is among the enabled methods, user name, realm and nonce equal the expected ones, the URL rule "
           "held for the received URI, and the response equals the hash term built from the EXPECTED user, realm, password, nonce and the "
           "request's method (Basic: user and password equal). Hash functions and the URL rule are uninterpreted functions of their arguments. "
-          "The Sender computes exactly the response Verify expects, and Basic credentials are refused for their shape only when the decoded string contains no colon at all (a password may contain ':')."),
-    note=TRUST + "Strings are an uninterpreted sort with equality, length and concatenation. Full completeness (every header the Sender marshals is accepted after unmarshalling), Digest header marshal/unmarshal round trips and the server's 401/close behaviour are not decided by this check.",
+          "The Sender computes exactly the response Verify expects, and Basic credentials are refused for their shape only when the decoded string contains no colon at all (a password may contain ':'), with the user part holding no colon. "
+          "When the application reports an authentication failure, ServerConn.handleAuthError keeps the connection and adds the challenge exactly when the request being handled carries no credentials, and returns the error that ends the connection when it does."),
+    note=TRUST + "Strings are an uninterpreted sort with equality, length and concatenation. credentialsProvided is introduced by a 'defines' clause (what it answers for the request is named, not analysed). Full completeness (every header the Sender marshals is accepted after unmarshalling) is decided only on the bounded grid of C09; that the error returned by handleAuthError actually closes the connection is not decided.",
     design="DESIGN.md section 4, C10",
 )
 
@@ -82,6 +85,7 @@ CLAIMS["C07"] = dict(
     note=TRUST + "The induction over the packet history is an argument in DESIGN.md, not a machine-checked lemma. Decoders covered are listed in the evidence (functions_under_contract); the others are not decided.",
     design="DESIGN.md section 4, C07",
 )
+BB = None
 B = (" A BOUNDED stand-in (labelled bounded, never counted among the obligations discharged, reported separately in the evidence under "
      "bounded_stand_ins) runs the real code over a finite grid for the half the contracts cannot state: ")
 
@@ -113,7 +117,8 @@ CLAIMS["C04"] = dict(
           "values <= 2048 bytes (assertion at the map update), body.unmarshal allocates only after the declared length passed the 128 KiB "
           "limit, InterleavedFrame.Unmarshal yields channel 0..255 and payload <= 65535 in a new buffer, Request/Response.Unmarshal bound method, "
           "status message and body, Conn.Read dispatches without panic, and none of these functions can index, slice or allocate out of range. "
-          "InterleavedFrame.MarshalTo writes the 4-byte header and the payload exactly as specified when the buffer has 4+len(Payload) bytes."),
+          "InterleavedFrame.MarshalTo writes the 4-byte header and the payload exactly as specified when the buffer has 4+len(Payload) bytes."
+          + B + "messages written with Conn.Write* come back from Conn.Read as the same sequence however the stream is split into reads (578 runs), and bytes written through the base64 tunnel encoding come back unchanged however the encoded stream is split (2366 runs)."),
     note=TRUST + "bufio.Reader, io.ReadFull and io.Reader.Read are assumed contracts (Peek returns exactly n bytes; reads may change every bufio.Reader and every byte array). Independence from how the stream is split into reads, the tunnels and whole-message round trips are NOT decided.",
     design="DESIGN.md section 4, C04",
 )
